@@ -88,6 +88,10 @@ def main(chk: core.Check, replay):
 
 
 def replay_one(chk, path):
+    return core.replay_generic(chk, path)
+
+
+def _replay_one_old(chk, path):
     import json
     from .. import resid
     d = json.load(open(path))["detail"]
